@@ -16,6 +16,9 @@ so they are consistent with each other through the common reference.  Additivity
 ([i,m) u [m,o) = [i,o)) and is checked without sandwich, with m on a pixel radius in part of the cases.
 Bin-width monitor: the k-th bin of the flexible detector must lie in the sandwich for
 [offset + k*sampling, offset + (k+1)*sampling) with offset/sampling read from the *returned* axis metadata.
+
+The flexible->integrate_radial clause goes through PolarMeasurements.integrate and therefore also sees the
+index-truncation defect that C13 isolates (limits on bin edges such as 1.4 + 7*0.7).
 """
 import numpy as np
 
@@ -156,7 +159,7 @@ def _check(ctx, case, abtem):
     f64 = case["precision"] == "float64"
     total = float(I.sum(-1).max())
     tol_native = (1e-11 if f64 else 5e-6) * total      # detectors that honour the configured precision
-    tol_polar = 5e-6 * total                            # polar binning accumulates in float32 always
+    tol_polar = 1e-5 * total                            # polar binning accumulates in float32 always
     rcut = float(min(w.cutoff_angles))
     rfull = 0.98 * min(nx // 2 * px, ny // 2 * py)
     rmax = rcut if case["range"] == "cutoff" else rfull
@@ -225,14 +228,25 @@ def _check(ctx, case, abtem):
 
     ann_ok = True
     if lazy and not trailing:
-        # lazy detection with main scan axes that are not the trailing ensemble axes: the blockwise plumbing cannot
-        # move axes between blocks (known finding, classified by the case parameters alone)
+        # Lazy detection with main scan axes that are not the trailing ensemble axes: AnnularDetector declares the output as
+        # (non-scan axes) + (scan axes) but the blockwise plumbing cannot move an axis across blocks.  Depending on the
+        # chunking the call raises, returns a wrongly shaped array or puts correct blocks at transposed positions.  Known
+        # finding, classified by the case parameters alone; a result that is right is judged as usual.
+        verdict = None
         try:
             out = annular(inner, outer)
+            got = L.as_numpy(out).astype(np.float64)
+            want_lo, want_hi = L.to_reduced(lo, spec), L.to_reduced(hi, spec)
+            if got.shape != want_lo.shape:
+                verdict = "shape"
+            elif np.maximum(np.maximum(want_lo - got, got - want_hi), 0).max(initial=0.0) > tol_native:
+                verdict = "values"
         except (AssertionError, IndexError, RuntimeError, ValueError) as e:
+            verdict = type(e).__name__
+        if verdict is not None:
             ctx.clauses["lazy-detect"] += 1
-            ctx.known("C12-lazy-annular-nontrailing-scan", "lazy AnnularDetector.detect with main scan axes that are not the trailing ensemble axes raises")
-            ctx.note("lazy-nontrailing-" + type(e).__name__)
+            ctx.known("C12-lazy-annular-nontrailing-scan", "lazy AnnularDetector.detect with non-trailing scan axes")
+            ctx.note("lazy-nontrailing-" + verdict)
             ann_ok = False
     else:
         out = annular(inner, outer)
